@@ -112,6 +112,11 @@ def reset_world():
     import spydrnet.uniquify as uq
     import spydrnet.flatten as fl
 
+    # The manager's WeakKeyDictionary never lets a netlist die (its values reference the children,
+    # which reference the key), and dead worlds share hash values (serials restart) with the next
+    # one, so the table degrades badly: the driver empties it.  Consequence: only ONE world is
+    # alive (indexed) at a time - finish with a world before building the next.
+    s.namespace_manager.namespaces.clear()
     NamespaceManager.default = "DEFAULT"
     s.namespace_manager.ignore_ns_change = False
     uq.MOD_NAME_UID = 0
@@ -209,8 +214,8 @@ def nworkers():
 
 def _init_worker():
     _state["scratch"] = None
+    gc.collect()
     gc.freeze()
-    gc.set_threshold(20000, 20, 20)
 
 
 def pmap(func, items, chunksize=None):
